@@ -262,6 +262,18 @@ Proof.
 Qed.
 Print Assumptions C15_schedule_status.
 
+(* ---- the FULL statements for the source as it is NOW (after the two fix: commits in /repo, see
+   known_findings.json "fixed").  They are re-checked against the regenerated flags on every run: if
+   get_signer goes back to the shared object, or the two modules' encoders drift apart again, these two
+   obligations break (and the _refuted witnesses above stop being vacuous). ---- *)
+Theorem C15_own_key_any_schedule : own_key_full actual.
+Proof. apply C15_own_key_any_schedule_if_fresh_signer. vm_compute. reflexivity. Qed.
+Print Assumptions C15_own_key_any_schedule.
+
+Theorem C15_own_cert_verifies : own_cert_full actual.
+Proof. apply C15_own_cert_verifies_if_same_encoder; [exact C15_tables | vm_compute; reflexivity]. Qed.
+Print Assumptions C15_own_cert_verifies.
+
 (* ---- non-vacuity: a signed request with RelayState, made through apply_binding by A after B used the
    table, verifies under A, not under B; mutations fail; the hypotheses above are satisfiable ---- *)
 Example C15_example :
